@@ -102,6 +102,34 @@ func gAdd[T integer](p *T, d T, real func() T) (r T) {
 	return *p
 }
 
+func gBit[T integer](p *T, m T, and bool, real func() T) (old T) {
+	if sched() {
+		vsched.AtomicAccess(unsafe.Pointer(p), true)
+		do(objOf(unsafe.Pointer(p)), "atomic.And/Or", kRMW, func() {
+			old = *p
+			if and {
+				*p &= m
+			} else {
+				*p |= m
+			}
+		})
+		return old
+	}
+	if free() {
+		return real()
+	}
+	return *p
+}
+
+func AndInt32(p *int32, m int32) int32     { return gBit(p, m, true, func() int32 { return atomic.AndInt32(p, m) }) }
+func AndUint32(p *uint32, m uint32) uint32 { return gBit(p, m, true, func() uint32 { return atomic.AndUint32(p, m) }) }
+func AndInt64(p *int64, m int64) int64     { return gBit(p, m, true, func() int64 { return atomic.AndInt64(p, m) }) }
+func AndUint64(p *uint64, m uint64) uint64 { return gBit(p, m, true, func() uint64 { return atomic.AndUint64(p, m) }) }
+func OrInt32(p *int32, m int32) int32      { return gBit(p, m, false, func() int32 { return atomic.OrInt32(p, m) }) }
+func OrUint32(p *uint32, m uint32) uint32  { return gBit(p, m, false, func() uint32 { return atomic.OrUint32(p, m) }) }
+func OrInt64(p *int64, m int64) int64      { return gBit(p, m, false, func() int64 { return atomic.OrInt64(p, m) }) }
+func OrUint64(p *uint64, m uint64) uint64  { return gBit(p, m, false, func() uint64 { return atomic.OrUint64(p, m) }) }
+
 func gSwap[T any](p *T, v T, real func() T) (r T) {
 	if sched() {
 		vsched.AtomicAccess(unsafe.Pointer(p), true)
@@ -204,6 +232,8 @@ func (x *Int32) Load() int32                     { return LoadInt32(&x.v) }
 func (x *Int32) Store(v int32)                   { StoreInt32(&x.v, v) }
 func (x *Int32) Swap(v int32) int32              { return SwapInt32(&x.v, v) }
 func (x *Int32) Add(d int32) int32               { return AddInt32(&x.v, d) }
+func (x *Int32) And(m int32) int32 { return AndInt32(&x.v, m) }
+func (x *Int32) Or(m int32) int32  { return OrInt32(&x.v, m) }
 func (x *Int32) CompareAndSwap(o, n int32) bool  { return CompareAndSwapInt32(&x.v, o, n) }
 
 type Int64 struct {
@@ -215,6 +245,8 @@ func (x *Int64) Load() int64                     { return LoadInt64(&x.v) }
 func (x *Int64) Store(v int64)                   { StoreInt64(&x.v, v) }
 func (x *Int64) Swap(v int64) int64              { return SwapInt64(&x.v, v) }
 func (x *Int64) Add(d int64) int64               { return AddInt64(&x.v, d) }
+func (x *Int64) And(m int64) int64 { return AndInt64(&x.v, m) }
+func (x *Int64) Or(m int64) int64  { return OrInt64(&x.v, m) }
 func (x *Int64) CompareAndSwap(o, n int64) bool  { return CompareAndSwapInt64(&x.v, o, n) }
 
 type Uint32 struct {
@@ -226,6 +258,8 @@ func (x *Uint32) Load() uint32                     { return LoadUint32(&x.v) }
 func (x *Uint32) Store(v uint32)                   { StoreUint32(&x.v, v) }
 func (x *Uint32) Swap(v uint32) uint32             { return SwapUint32(&x.v, v) }
 func (x *Uint32) Add(d uint32) uint32              { return AddUint32(&x.v, d) }
+func (x *Uint32) And(m uint32) uint32 { return AndUint32(&x.v, m) }
+func (x *Uint32) Or(m uint32) uint32  { return OrUint32(&x.v, m) }
 func (x *Uint32) CompareAndSwap(o, n uint32) bool  { return CompareAndSwapUint32(&x.v, o, n) }
 
 type Uint64 struct {
@@ -237,6 +271,8 @@ func (x *Uint64) Load() uint64                     { return LoadUint64(&x.v) }
 func (x *Uint64) Store(v uint64)                   { StoreUint64(&x.v, v) }
 func (x *Uint64) Swap(v uint64) uint64             { return SwapUint64(&x.v, v) }
 func (x *Uint64) Add(d uint64) uint64              { return AddUint64(&x.v, d) }
+func (x *Uint64) And(m uint64) uint64 { return AndUint64(&x.v, m) }
+func (x *Uint64) Or(m uint64) uint64  { return OrUint64(&x.v, m) }
 func (x *Uint64) CompareAndSwap(o, n uint64) bool  { return CompareAndSwapUint64(&x.v, o, n) }
 
 // Pointer mirrors atomic.Pointer[T].
